@@ -165,7 +165,21 @@ def run(res, tier, seed, shard, nshards):
             db = opendb()
             try:
                 with quiet_stdout():
-                    pts = [Point(time=c.dt, tags={"i": str(i)}) for i, c in enumerate(cases)]
+                    # the time reaches the point through the constructor or through attribute assignment
+                    pts = []
+                    for i, c in enumerate(cases):
+                        if (i + b) % 3 == 1:
+                            p_ = Point(tags={"i": str(i)})
+                            p_.time = c.dt
+                            res.count("time_given_by_assignment")
+                        elif (i + b) % 3 == 2:
+                            p_ = Point()
+                            p_.tags = {"i": str(i)}
+                            p_.time = c.dt
+                            res.count("time_given_by_assignment")
+                        else:
+                            p_ = Point(time=c.dt, tags={"i": str(i)})
+                        pts.append(p_)
                     if b % 3 == 0 or n > 9:
                         db.insert_multiple(pts)
                         res.count("inserted_via.insert_multiple")
@@ -357,6 +371,7 @@ def finalize(res, tier):
         res.require(f"zone.{z}")
     res.require("comparisons.scan")
     res.require("windows.index")
+    res.require("time_given_by_assignment")
     res.require("windows.scan")
     res.require("presented.ambiguous_or_gap_naive")
     res.require("sorted_checks_with_ties")
